@@ -236,28 +236,46 @@ TLAPS_STDLIB = "/opt/veriftools/tlapm/lib/tlapm/stdlib"
 TLAPS_MODULES = ("TLAPS.tla", "SequenceTheorems.tla", "FunctionTheorems.tla", "NaturalsInduction.tla", "WellFoundedInduction.tla", "FiniteSetTheorems.tla")
 
 
+PROOF_FILES = ("ContainerConc.tla", "ContainerConcProofs.tla")
+PROOF_CERT = "ContainerConcProofs.cert.json"
+
+
+def proof_digest():
+    import hashlib
+    h = hashlib.sha256()
+    for f in PROOF_FILES:
+        h.update(open(os.path.join(core.SPEC, f), "rb").read())
+    return h.hexdigest()
+
+
 def prove_mutex(tier="quick"):
-    """TLAPS: mutual exclusion, ConstructedOnce, EvaluatedOnce and ContextIsolation are invariants of ContainerConc for every instance
-    (ContainerConcProofs.tla). A full proof takes about ten minutes; the quick tier starts from tlapm's own fingerprint file
-    (spec/ContainerConcProofs.fp: results keyed by the content of each obligation, so any obligation the current modules change
-    is proved again), the thorough tier proves everything afresh."""
+    """TLAPS: mutual exclusion, ConstructedOnce, EvaluatedOnce and ContextIsolation are invariants of ContainerConc for every
+    instance (ContainerConcProofs.tla, about ten minutes). The proof depends on the two modules only, not on /repo: the thorough
+    tier proves everything afresh and (re)writes spec/ContainerConcProofs.cert.json with the digest of the modules it proved; the
+    quick tier accepts that certificate when the digest of the current modules equals it and proves afresh otherwise."""
     import re
     import tempfile
+    cert_path = os.path.join(core.SPEC, PROOF_CERT)
+    digest = proof_digest()
+    if tier == "quick" and os.path.exists(cert_path):
+        cert = json.load(open(cert_path))
+        if cert.get("sha256_of_modules") == digest and cert.get("obligations_proved", 0) > 0:
+            return {"obligations": cert["obligations_proved"], "how": "certificate of an earlier full proof of exactly these modules (sha256 %s...)" % digest[:12]}
     d = tempfile.mkdtemp(prefix="tlaps-", dir=core.scratch())
-    for f in ("ContainerConc.tla", "ContainerConcProofs.tla"):
+    for f in PROOF_FILES:
         shutil.copy(os.path.join(core.SPEC, f), d)
-    cmd = ["tlapm", "--threads", str(core.NCPU)]
-    fp = os.path.join(core.SPEC, "ContainerConcProofs.fp")
-    if tier == "quick" and os.path.exists(fp):
-        shutil.copy(fp, os.path.join(d, "start.fp"))
-        cmd += ["--usefp", "start.fp"]
-    else:
-        cmd += ["--cleanfp"]
-    p = core.sh(cmd + ["ContainerConcProofs.tla"], cwd=d, check=False, timeout=5400, env=dict(os.environ))
+    p = core.sh(["tlapm", "--threads", str(core.NCPU), "--cleanfp", "ContainerConcProofs.tla"], cwd=d, check=False, timeout=5400, env=dict(os.environ))
     m = re.search(r"All (\d+) obligations? proved", p.stdout)
     if not m:
-        raise core.InfraError("TLAPS could not discharge the proof of mutual exclusion:\n" + p.stdout[-2000:])
-    return int(m.group(1))
+        raise core.InfraError("TLAPS could not discharge the proofs about ContainerConc:\n" + p.stdout[-2000:])
+    n = int(m.group(1))
+    try:
+        if os.access(core.SPEC, os.W_OK) and os.environ.get("VERIF_EVIDENCE_DIR") is None:
+            json.dump({"sha256_of_modules": digest, "obligations_proved": n, "modules": list(PROOF_FILES),
+                       "prover": "tlapm --cleanfp (back ends SMT, Zenon, Isabelle, PTL)"}, open(cert_path, "w"), indent=1)
+    except OSError:
+        pass
+    return {"obligations": n, "how": "proved afresh by tlapm"}
 
 
 def run_c20(tier):
@@ -457,7 +475,8 @@ def run_c20(tier):
                   "(the same for evals[p] of a parameter) and CtxInv (every instance in a frame, a bag, the shared cache or a result has the "
                   "owner its place demands; no place holds a number not handed out yet) are inductive; Spec => []MutualExclusion, "
                   "[]ConstructedOnce, []EvaluatedOnce and []ContextIsolation",
-                  "obligations": obligations, "discharged": obligations, "instances_checked_against_Inv_by_TLC": bool(stdlib)}, "fine_grained_binding": {k: x for k, x in fine.items() if k != "sample"}, "operations_returned": n_ops, "trace_events": len(lines),
+                  "obligations": obligations["obligations"], "discharged": obligations["obligations"], "how": obligations["how"],
+                  "instances_checked_against_Inv_by_TLC": bool(stdlib)}, "fine_grained_binding": {k: x for k, x in fine.items() if k != "sample"}, "operations_returned": n_ops, "trace_events": len(lines),
         "known_findings_hit": {k: n for k, (f, n) in v.known_hit.items()},
     }, time.time() - t0, violations=len(v.violations), assumptions=[
         "interleavings of the real program are sampled by the Go scheduler, not enumerated; the model explores them exhaustively only on its own abstraction",
